@@ -23,8 +23,12 @@ func HandleWorkReportDistribution(
 
 	var guarantee types.ReportGuarantee
 	decoder := types.NewDecoder()
-	if err := decoder.Decode(data, &guarantee); err != nil {
+	consumed, err := decoder.DecodeWithConsumed(data, &guarantee)
+	if err != nil {
 		return fmt.Errorf("failed to decode ReportGuarantee: %w", err)
+	}
+	if consumed != len(data) {
+		return fmt.Errorf("%d trailing bytes after the guaranteed work-report", len(data)-consumed)
 	}
 
 	_ = keypair
